@@ -101,9 +101,10 @@ def parse_config_file(args_dict):
     all_files = dict(cfg.items('files'))
 
     # First path.
+    config_path = all_files.pop('path', '.')
     path = term.pop('path')
     if path is None:
-        path = all_files.pop('path', '.')
+        path = config_path
     path = os.path.abspath(path)
 
     # Initiate files dict with defaults.
